@@ -73,10 +73,21 @@ def build(rng, i):
     subset = None if rng.random() < 0.4 else rng.sample(all_names, min(len(all_names), rng.randint(0, 4)))
     root_chain = rng.random() < 0.5
     shipped = roots[-1] if (not root_chain or rng.random() < 0.5) else roots[0]
-    prog = [{"op": "load", "cache": {"subset": subset, "root_chain": root_chain} if subset is not None else {"root_chain": root_chain}},
+    copt = {"subset": subset, "root_chain": root_chain} if subset is not None else {"root_chain": root_chain}
+    if i % 3 == 2:
+        # the output directories are not empty: an earlier copy of a target, damaged in place (other bytes of exactly
+        # the signed length), an unrelated file, and a stale metadata file
+        pre = [["targets/unrelated.bin", "keep me"], ["metadata/timestamp.json", "{stale"]]
+        for n in (all_names if subset is None else subset):
+            c = contents[n]
+            fn = (hashlib.sha256(c.encode()).hexdigest() + "." if cs else "") + resolved(n)
+            if fn != corrupted:
+                pre.append(["targets/" + fn, "#" * len(c.encode())])
+        copt["prefill"] = pre
+    prog = [{"op": "load", "cache": copt},
             {"op": "use_dir", "dir": "@0"}, {"op": "load"}]
     case = {"p": 10, "docs": s.docs, "root": shipped, "initial": {"files": files, "targets_files": tfiles}, "program": prog}
-    return case, {"cs": cs, "role": role_a, "subset": subset, "root_chain": root_chain, "chain": chain,
+    return case, {"prefill": {p: c for p, c in copt.get("prefill", [])}, "cs": cs, "role": role_a, "subset": subset, "root_chain": root_chain, "chain": chain,
                   "contents": contents, "corrupted": corrupted, "names": all_names,
                   "shipped_version": s.docs[shipped]["version"]}
 
@@ -134,7 +145,8 @@ def run(chk):
                 rel = f[len("<OUTSIDE>/targets/"):]
                 name = rel[65:] if info["cs"] else rel
                 for raw, c in info["contents"].items():
-                    if resolved(raw) == name and b != c.encode():
+                    if resolved(raw) == name and b != c.encode() and info["prefill"].get("targets/" + rel) != b.decode("utf-8", "replace"):
+                        # (a file that was there before and that the cache did not touch is not "stored by the cache")
                         chk.violation("a target that fails verification was stored in the cache: %s" % rel, full)
         if cache_res[0] != 0:
             continue
